@@ -153,6 +153,56 @@ def check(facts, rep, tier, cfg):
             rep.bad("C17.R1", "empty-verifier-elsewhere", "", "the permissive verifier is also constructed in %s" % sorted(set(others)))
         else:
             rep.ok("C17.R1", "empty-verifier-only-here", where, "EmptyVerifier constructed only under the skip flag", nontrivial=False)
+        # ---- R9 what the permissive verifier does: accepts every certificate, and leaves the handshake-signature checks to rustls
+        rep.rule("C17.R9", "skip-verify accepts ANY certificate and still completes every handshake: the permissive verifier's verify_server_cert "
+                           "returns Ok on every path, and its TLS 1.2 / 1.3 signature hooks delegate to rustls::crypto::verify_tls1x_signature "
+                           "with the handshake's own (message, cert, dss) - neither a constant refusal (a protocol version that can no longer "
+                           "connect) nor a constant acceptance")
+        nhooks = 0
+        for hb in crate.bodies:
+            if hb.kind != "AssocFn" or not str((hb.j.get("impl_self") or {}).get("adt", "")).endswith("EmptyVerifier"):
+                continue
+            if hb.name not in ("verify_server_cert", "verify_tls12_signature", "verify_tls13_signature"):
+                continue
+            nhooks += 1
+            rep.analysed(hb)
+            htr = Tracer(facts, hb)
+            hw = "%s (%s)" % (loc_str(hb.loc), hb.path)
+            rv = strip(htr.local(0)) if hasattr(htr, "local") else None
+            if rv is None:
+                rep.bad("C17.R9", "hook/%s" % hb.name, hw, "cannot evaluate the hook's result")
+                continue
+            alts = list(rv[1]) if rv.kind == "phi" else [rv]
+            alts = [strip(a) for a in alts]
+            if hb.name == "verify_server_cert":
+                okv = all(a.kind == "agg" and str(a[2]).endswith("::Ok") for a in alts) and \
+                    any(x.kind == "call" and x[6] == "assertion" for x in walk(rv))
+                if okv:
+                    rep.ok("C17.R9", "hook/verify_server_cert", hw, "Ok(ServerCertVerified::assertion()) on every path")
+                else:
+                    rep.bad("C17.R9", "hook/verify_server_cert", hw, "the permissive verifier can reject a certificate (result `%s`): with skip-verify "
+                            "configured every certificate must be accepted" % fmt(rv)[:160])
+            else:
+                want = "verify_tls12_signature" if "12" in hb.name else "verify_tls13_signature"
+                good = True
+                for a in alts:
+                    if not (a.kind == "call" and a[6] == want and "rustls" in a[1] and len(a[3]) >= 3):
+                        good = False
+                        continue
+                    for k in range(3):
+                        src = strip(a[3][k])
+                        while src.kind in ("ref", "deref", "cast"):
+                            src = strip(src[1])
+                        if not (src.kind == "param" and src[1] == k + 2):
+                            good = False
+                if good:
+                    rep.ok("C17.R9", "hook/%s" % hb.name, hw, "delegates to rustls::crypto::%s(message, cert, dss, ..)" % want)
+                else:
+                    rep.bad("C17.R9", "hook/%s" % hb.name, hw,
+                            "the permissive verifier's %s hook does not hand the handshake's (message, cert, dss) to rustls::crypto::%s but "
+                            "returns `%s`: a peer negotiating that protocol version can no longer be reached with skip-verify (or its handshake "
+                            "signature is not checked at all)" % (hb.name, want, fmt(rv)[:160]))
+        rep.floor("C17.R9", "hooks of the permissive verifier", nhooks, 3)
     elif rustls_on:
         rep.bad("C17.R1", "client-config", "", "make_client_config not found (anchor missing)")
     if native_on:
